@@ -415,6 +415,10 @@ def write_parse_pool(sdir, size='quick'):
         ('$.x.b.g1()', C0), ('$.a.f1()', dict(C1, variant=2, cname='f1,f2,g1 (other implementations)')), ('$.x.b.g1()', dict(C4, variant=2, cname='f1,f2,g1+accessor (other implementations)')),
         ('$.a.f1()', dict(C1, extra=True, cname='f1,f2,g1 + a second Config')), ('$.a.f9()', dict(C1, extra=True, cname='f1,f2,g1 + a second Config')),
         ('$[?(@.a =~ /(/)]', C0),
+        # one escaped text in its two roles (member name: JSON escapes; string literal: the backslash is dropped)
+        ("$['x\\ty']", C0), ("$[?(@ == 'x\\ty')]", C0), ('$["x\\ty"]', C3),
+        # a path of more than 64 bytes (whatever is remembered about long paths must not outlive the call)
+        ('$[' + ' ' * 12 + "'x'" + ' ' * 12 + '][' + ' ' * 12 + "'b'" + ' ' * 12 + '][' + ' ' * 6 + '0' + ' ' * 6 + ']', C0),
     ]
     if size != 'quick':
         pool += [('$..a', C3), ('$[?(@.a.f1() == 1)]', C4), ('$.x[?(@.a =~ /a/)]', C0), ('$.x[?(@.a == "1\\")]', C0), ('*', C0), ('$[0:1]', C3),
